@@ -17,6 +17,15 @@ def FVal.nanEq : FVal → FVal → Bool
   | .fin a, .fin b => a == b
   | _, _ => false
 
+/-- IEEE `==` on stored values: NaN equals nothing -/
+def FVal.ieeeEq : FVal → FVal → Bool
+  | .fin a, .fin b => a == b
+  | _, _ => false
+
+def FVal.isNan : FVal → Bool
+  | .nan => true
+  | .fin _ => false
+
 /-- `from_rio_dataset` followed by `RasterArray.mask` for one pixel: `isMasked` = the dataset has a per-dataset mask
     (internal mask band or alpha), `dsNodata` = the dataset's nodata value, `stored` = the number in the file,
     `maskBit` = the dataset mask at the pixel.  Result: the valid value, or `none`. -/
